@@ -235,6 +235,17 @@ def _raised_in_code_under_test(e):
     return last is not None and last.tb_frame.f_code.co_filename.startswith(REPO_SRC)
 
 
+def _passes_through_code_under_test(e):
+    from .z3env import REPO_SRC
+
+    tb = e.__traceback__
+    while tb is not None:
+        if tb.tb_frame.f_code.co_filename.startswith(REPO_SRC):
+            return True
+        tb = tb.tb_next
+    return False
+
+
 def no_contract_applies(e):
     """Exceptions that mean 'the code uses the sidecar's stubs / environment in a way no contract describes' - never a verdict about the code:
     a missing global of the extracted code, an attribute a sidecar stub does not model, a stub called with another signature, a name of the
@@ -376,6 +387,12 @@ def explore(run_one, unit_name="", max_paths=MAX_PATHS, props=()):
                     end = "infeasible"
                 else:
                     end, err = "unsupported", f"{d}"
+            elif not err and _passes_through_code_under_test(e):
+                # an exception the unit's harness did not anticipate left the code under verification (raised by it, by the standard library it
+                # called on a ghost object, or by a sidecar proxy it used in an unmodelled way): no contract of this unit describes that behaviour.
+                # Undecided - the bounded stand-ins covering the same functions decide (check.degraded_units); never a crash of the checker
+                tbs = "".join(traceback.format_exception(type(e), e, e.__traceback__))[-1200:]
+                end, err = "unsupported", f"code no longer matches the sidecar's contracts: unanticipated {type(e).__name__}: {str(e)[:200]} || {tbs}"
             elif not err:
                 end, err = "crash", "".join(traceback.format_exception(type(e), e, e.__traceback__))[-3000:]
         pruned += ctx.infeasible_pruned
